@@ -12,8 +12,9 @@
 // names, in parameter order) and `<pos>` is the position in `getParameters()` of the very object
 // shared by the independent list (`x` if that object is not one of the owner's parameters).
 //
-// Every call into the library runs under a 3 s watchdog: a call that does not return is
-// answered `hang` (and the process ends: the state is not usable any more).
+// Every case runs in a child process and every call into the library under a watchdog (1 s of CPU time): a call
+// that does not return is answered `hang`, a call that kills the process `crash:<rc>`; the
+// remaining operations of that case are answered `skipped` and the next case starts afresh.
 #include "common.h"
 #include <Bpp/Numeric/AbstractParameterAliasable.h>
 #include <Bpp/Numeric/Constraints.h>
@@ -24,6 +25,8 @@
 #include <memory>
 #include <signal.h>
 #include <unistd.h>
+#include <sys/wait.h>
+#include <sys/time.h>
 using namespace bpp; using namespace verif;
 
 static const size_t NSLOT = 3;
@@ -167,35 +170,85 @@ static std::string exec(const Toks& t) {
   return "bad-op";
 }
 
+// ---- one child process per case: a call that does not return (watchdog) or that crashes the
+// process ends only this case; the remaining operations of the case are answered `skipped`.
+static int g_out = 1;          // where the child writes its answers
+static volatile size_t g_left = 0;   // operations of the case not answered yet (including the running one)
+
+static void emitLine(const std::string& s) {
+  std::string l = s + "\n";
+  size_t off = 0;
+  while (off < l.size()) { ssize_t r = write(g_out, l.data() + off, l.size() - off); if (r <= 0) _exit(4); off += (size_t)r; }
+}
+
 static void onAlarm(int) {
-  const char* m = "hang\n";
-  ssize_t r = write(1, m, 5); (void)r;
+  ssize_t r = write(g_out, "hang\n", 5); (void)r;
+  for (size_t i = 1; i < g_left; ++i) { r = write(g_out, "skipped\n", 8); (void)r; }
   _exit(0);
 }
 
+static std::string answer(const Toks& t) {
+  if (t.size() < 2) return "bad-op";
+  std::string res;
+  // watchdog on the CPU time of this process (not wall time: immune to machine load)
+  struct itimerval on = {{0, 0}, {1, 0}}, off = {{0, 0}, {0, 0}};
+  setitimer(ITIMER_VIRTUAL, &on, nullptr);
+  try { res = exec(t); }
+  catch (ConstraintException&) { res = "exc:constraint"; }
+  catch (ParameterNotFoundException&) { res = "exc:notfound"; }
+  catch (Exception&) { res = "exc:bpp"; }
+  catch (BadOp&) { res = "bad-op"; }
+  catch (Absent&) { res = "absent"; }
+  catch (std::exception&) { res = "exc:std"; }
+  setitimer(ITIMER_VIRTUAL, &off, nullptr);
+  if (res == "bad-op") return res;
+  std::string s = res;
+  for (size_t k = 0; k < NSLOT; ++k) s += dumpSlot(k);
+  return s;
+}
+
+static void runCase(const std::vector<Toks>& ops) {
+  if (ops.empty()) return;
+  int fd[2];
+  if (pipe(fd) != 0) _exit(5);
+  std::cout.flush();
+  pid_t pid = fork();
+  if (pid == 0) {
+    close(fd[0]);
+    g_out = fd[1];
+    signal(SIGVTALRM, onAlarm);
+    g_left = ops.size();
+    for (auto& t : ops) { emitLine(answer(t)); --g_left; }
+    _exit(0);
+  }
+  close(fd[1]);
+  std::string buf; char tmp[4096]; ssize_t r;
+  while ((r = read(fd[0], tmp, sizeof tmp)) > 0) buf.append(tmp, (size_t)r);
+  close(fd[0]);
+  int st = 0; waitpid(pid, &st, 0);
+  size_t lines = 0; for (char c : buf) if (c == '\n') ++lines;
+  if (!buf.empty() && buf.back() != '\n') { buf += "\n"; ++lines; }
+  std::cout << buf;
+  if (lines < ops.size()) {
+    // the child died inside an operation
+    std::cout << "crash:" << (WIFSIGNALED(st) ? -WTERMSIG(st) : WEXITSTATUS(st)) << "\n";
+    for (size_t i = lines + 1; i < ops.size(); ++i) std::cout << "skipped\n";
+  }
+  std::cout.flush();
+}
+
 int main() {
-  std::cout.setf(std::ios::unitbuf);
-  signal(SIGALRM, onAlarm);
-  // library warnings ("Aliasing parameter ... gets the constraints of ...") go to ApplicationTools::warning = cerr/cout:
+  // library warnings ("Aliasing parameter ... gets the constraints of ...") would go to stdout
   ApplicationTools::warning = nullptr;
   ApplicationTools::message = nullptr;
-  return runLoop(
-    [&](const Toks&) { for (auto& s : slot) s.reset(); },
-    [&](const Toks& t) {
-      if (t.size() < 2) return std::string("bad-op");
-      std::string res;
-      alarm(3);
-      try { res = exec(t); }
-      catch (ConstraintException&) { res = "exc:constraint"; }
-      catch (ParameterNotFoundException&) { res = "exc:notfound"; }
-      catch (Exception&) { res = "exc:bpp"; }
-      catch (BadOp&) { res = "bad-op"; }
-      catch (Absent&) { res = "absent"; }
-      catch (std::runtime_error&) { res = "exc:ub"; }
-      alarm(0);
-      if (res == "bad-op") return res;
-      std::string s = res;
-      for (size_t k = 0; k < NSLOT; ++k) s += dumpSlot(k);
-      return s;
-    });
+  std::vector<Toks> ops;
+  std::string line;
+  while (std::getline(std::cin, line)) {
+    Toks t = toks(line);
+    if (t.empty() || t[0] == "#" || t[0] == "=") continue;
+    if (t[0] == "case") { runCase(ops); ops.clear(); continue; }
+    ops.push_back(t);
+  }
+  runCase(ops);
+  return 0;
 }
